@@ -231,6 +231,10 @@ def run(ctx, n_cases=None, rng_name="main"):
     for ops in seqs:
         for cf in (False, True):
             one(ctx, bc.new_case(nt, ops, "always", cf), pending)
+    # fixed battery: a named PRIMARY KEY dropped through the public API (reflected / copy_from, always / auto)
+    for k, (pt, ops) in enumerate(bg.pk_drop_battery()):
+        for cf in (False, True):
+            one(ctx, bc.new_case(pt, ops, "auto" if (k + cf) % 2 else "always", cf), pending)
     for i in range(n):
         one(ctx, gen_case(rng, big=ctx.thorough and i % 4 == 0), pending)
         if len(pending) >= 250:
